@@ -419,6 +419,84 @@ def fn_bfs(items):
     return {'n': out_n, 'nt': out_nt, 'viol': viol, 'keys': keys, 'extra': extra}
 
 
+# ------------------------------------------------------------------ torchclifford states
+class _TS(object):
+    """numpy view of a torch state for stab.state_check."""
+    def __init__(self, st):
+        self.gs, self.ps, self.r = lib.t2n(st.gs), lib.t2n(st.ps), st.r
+
+
+def _torch_pool(N, seed):
+    if N == 3:
+        from . import c06
+        if 402 not in c06._N3:
+            c06._N3[402] = c06._n3_states(402, 0)
+        return c06._N3[402][seed % 11::11]
+    T = stab.tableaux(N)
+    return [T[i] for i in (range(len(T)) if N == 1 else stab.representatives(N, seed))]
+
+
+def fn_torch(items):
+    """item = [seed, N, i]: torchclifford StabilizerState built from the i-th pool tableau; every signed Hermitian
+    generator G is applied as rotate_by(G) TWICE in a row with the SAME generator object, where G is (a) a literal Pauli
+    (python int phase) and (b) an element taken by indexing from a PauliList (its phase is a 0-dim view into the list);
+    then transform_by(rotation map of G) and a copy().  After every step: tableau invariant (pairing, Hermitian phases,
+    rank), the state denotes U^dag rho U of the state before; the lending list is unchanged."""
+    n = nt = 0
+    viol = []
+    m = lib.torch_mods()
+    for seed, N, i in items:
+        item = [seed, N, i]
+        gs0, ps0, r0 = _torch_pool(N, seed)[i]
+        herm = dom.hermitian_paulis(N, include_identity=False)
+        if N == 3:
+            herm = herm[i % 3::3]
+        Lg = np.array([g for g, p in herm])
+        Lp = np.array([p for g, p in herm])
+        kind = 'pure' if r0 == 0 else 'mixed-r%d' % r0
+        for source in ('literal', 'list-element'):
+            lender = lib.tPL(Lg, Lp) if source == 'list-element' else None
+            for k, (g, p) in enumerate(herm):
+                U = ref.rot_unitary(g, p, N)
+                st = lib.tST(gs0, ps0, r0)
+                G = lender[k] if lender is not None else lib.tP(g, p)
+                rho_m = stab.rho_of(gs0, ps0, r0)
+                steps = [('rotate_by', lambda: st.rotate_by(G)), ('rotate_by-again', lambda: st.rotate_by(G)),
+                         ('transform_by-rotation-map', lambda: st.transform_by(m['tst'].clifford_rotation_map(G)))]
+                for sname, step in steps:
+                    try:
+                        step()
+                    except Exception as e:
+                        viol.append(V('C05/torch/%s/%s/raises-%s' % (source, sname, type(e).__name__), item, 'torch state %s: %s with G=%s (%s) raised %s' % (
+                            stab.describe(gs0, ps0, r0), sname, ref.g_to_str(g, p), source, e)))
+                        break
+                    n += 1
+                    nt += 1
+                    v = _TS(st)
+                    badness = stab.state_check(v, N)
+                    if badness:
+                        viol.append(V('C05/torch/%s/%s/invalid/%s' % (source, sname, kind), item, 'torch state %s after %s with G=%s (%s): %s; now %s' % (
+                            stab.describe(gs0, ps0, r0), sname, ref.g_to_str(g, p), source, badness, stab.describe(v.gs, v.ps % 4, int(v.r)))))
+                        break
+                    rho_m = U.conj().T @ rho_m @ U
+                    if ref.rho_key(stab.rho_of(v.gs, v.ps, int(v.r))) != ref.rho_key(rho_m):
+                        viol.append(V('C05/torch/%s/%s/denotation/%s' % (source, sname, kind), item, 'torch state %s after %s with G=%s (%s) is valid but not U^dag rho U' % (
+                            stab.describe(gs0, ps0, r0), sname, ref.g_to_str(g, p), source)))
+                        break
+                else:
+                    try:
+                        c = st.copy()
+                        if stab.key_arrays(lib.t2n(c.gs), lib.t2n(c.ps), c.r) != stab.key_arrays(lib.t2n(st.gs), lib.t2n(st.ps), st.r):
+                            viol.append(V('C05/torch/copy', item, 'copy() of a torch state differs from the original'))
+                    except Exception as e:
+                        viol.append(V('C05/torch/copy/raises-%s' % type(e).__name__, item, 'copy() raised %s' % e))
+            if lender is not None:
+                lg, lp = lib.t2n(lender.gs), lib.t2n(lender.ps)
+                if (lg != Lg).any() or (lp % 4 != Lp).any():
+                    viol.append(V('C05/torch/list-element/lender-changed', item, 'the PauliList whose elements were used as rotation generators changed: phases %s, were %s' % (lp.tolist()[:12], Lp.tolist()[:12])))
+    return {'n': n, 'nt': nt, 'viol': viol}
+
+
 def legs(tier):
     out = []
     for N in (1, 2):
@@ -454,4 +532,10 @@ def legs(tier):
     else:
         out.append(Leg('bfs', fn_bfs, [[1, 10 ** 6], [2, 10 ** 6], [3, 150000]], chunk=1, exhaustive=False, supplementary=True,
                        bound='N<=2 to fixpoint; N=3 capped at 150000 states', timeout=6000))
+    import os as _os
+    sd = int(_os.environ.get('VERIF_SEED', '0') or 0)
+    titems = [[sd, N, i] for N in (1, 2, 3) for i in range(len(_torch_pool(N, sd)))]
+    out.append(Leg('torch_states', fn_torch, titems, chunk=2, exhaustive=False, supplementary=True,
+                   bound='torchclifford states: 48 (N=1) + 91 (N=2, one per density matrix) + %d (N=3, every rank) pool tableaux x every signed generator (N=3: a third) given as a literal Pauli and as an element borrowed from a PauliList; '
+                         'rotate_by, rotate_by again with the same generator object, transform_by(rotation map): tableau invariant + U^dag rho U after every step; lender unchanged' % len(_torch_pool(3, sd))))
     return out
